@@ -224,7 +224,7 @@ def history_stage(chk, out):
     r = chk.tlc("GqlSchemaOps", cfg, tags=["SEQ"], label="GqlSchemaOps ops<=1 (in-place history for C15)", heap="8g")
     from checks import c14
     n = 0
-    for b in r.tagged("SEQ"):
+    for b in opsreplay.expand(r.tagged("SEQ")):
         h = b["hist"][0]
         if h["op"] != "hide":
             continue
